@@ -45,6 +45,37 @@ CHECKS = {
    note="Intervals of implicit draws are the ones coded (the documentation only names 'limited' vs 'all'). One genuine defect found and fixed.",
    technique="TLA+ spec + TLC exhaustive; generated-configuration replay into NewConfig; TLC trace validation", design="5/C16"),
 }
+
+def _doc(mod):
+    import ast
+    d = ast.get_docstring(ast.parse(open(os.path.join(HERE, "lib", "checks", mod + ".py")).read())) or ""
+    return " ".join(d.split())
+
+AUTO = {  # property -> (category, trusted base / bounds, technique)
+ "C05": ("model_checking", "Trusted: TLC, synctest virtual time, reference codec (builds the genuine templates), AEAD strength. Bounds: quick tier samples prefixes (every 3rd + all cuts in the padding and at region boundaries) and bits (every 7th); thorough tier takes every prefix and every bit of four segment shapes. The adversary's copies are of segments the server never received intact (an intact copy arriving first is simply the genuine handshake).",
+         "TLA+ spec + TLC exhaustive (with two violating variants); adversary-class replay on a real server mux; TLC validation of the recorded event stream"),
+ "C07": ("model_checking", "Trusted: TLC, SHA-256/AEAD. Bounds: three names (one pair colliding on the 4-byte hint, found by birthday search), source caches of up to two users, four credential classes; reload rows sampled in the quick tier, all 19840 in the thorough tier.",
+         "TLA+ spec + TLC exhaustive evaluation; table replay into serveruser.Registry; TLC validation of recorded outcomes; concurrent reload run under the race detector"),
+ "C08": ("model_checking", "Trusted: TLC, synctest clocks (whole seconds). Two bubbles stand in for two machines; only bytes cross.",
+         "TLA+ arithmetic spec evaluated exhaustively by TLC; boundary-pair replay between a real client and a real server at different virtual clocks; TLC trace validation"),
+ "C11": ("model_checking", "Trusted: TLC. Input classes are those of the method list / credential / placement product; byte-level variants per class are enumerated, not exhaustive over all strings.",
+         "TLA+ decision table + TLC; byte-string replay against a real socks5.Server; TLC validation of recorded negotiations"),
+ "C12": ("model_checking", "Trusted: TLC; the sandbox's loopback interfaces. Private-range effect runs use a stand-in address when the sandbox allows adding one. One genuine design gap (UDP association header addresses) is a known finding.",
+         "TLA+ spec + TLC exhaustive table; request replay into FindAction and effect runs on a real server; TLC trace validation"),
+ "C17": ("model_checking", "Trusted: TLC as evaluator of the 64-bit operators; GODEBUG=cpu.bmi2=off selects the portable path. Exhaustive at reduced width (W=8), vector-based at full width.",
+         "TLA+ codec algebra checked exhaustively at reduced width; TLC-evaluated vectors compared with the real codec on both CPU paths"),
+ "C18": ("model_checking", "Trusted: TLC. Byte alphabet abstracted to the two markers and 'other'; up to two datagrams per model case, concretised with boundary sizes.",
+         "TLA+ framing automata + TLC exhaustive; case replay through the real tunnel, wrapper and relay; TLC trace validation"),
+ "C19": ("model_checking", "Trusted: TLC, synctest time. Counter model exhaustive at scaled units; recorded histories validated at the real constants.",
+         "TLA+ specs + TLC exhaustive; TLC validation of recorded counter histories at real constants; quota-case replay on real muxes"),
+ "C20": ("model_checking", "Trusted: TLC. Field values inside a class are adversarial samples; the set of fields is the model's.",
+         "TLA+ merge spec + TLC; case replay through the real store / patch / link functions on both file formats; TLC trace validation"),
+}
+for _pid, (_cat, _note, _tech) in AUTO.items():
+    CHECKS[_pid] = dict(category=_cat, text=_doc(_pid.lower()), note=_note, technique=_tech, design="5/" + _pid)
+CHECKS["C06"]["text"] += " Protocol half: " + _doc("c06proto")
+CHECKS["C06"]["technique"] += "; replay of recorded genuine traffic against a real server mux with TLC validation of the event stream (ServerIngress.tla)"
+
 import subprocess
 HOOK_COMMITS = subprocess.run("git -C /repo log --format=%h --grep='^verif hooks'", shell=True, capture_output=True, text=True).stdout.split()
 PENDING = "check not built yet in this session (planned, see DESIGN.md section 5)"
